@@ -44,11 +44,11 @@ def tile_sum(board):
 class A(Adapter):
     name = "game2048"
     lean = "game2048"
-    serves = {"C01", "C04", "C05", "C07", "C08", "C09", "C12"}
+    serves = {"C01", "C04", "C05", "C07", "C08", "C09", "C10", "C12"}
     terminate_on_invalid = False
     max_steps = 60
     episode_cap = 1500
-    ops = ("state", "step", "judge", "row", "bounds")
+    ops = ("state", "step", "judge", "row", "bounds", "instance")
     state_fields = ["board", "step_count", "action_mask", "score"]
 
     def configs(self, tier):
